@@ -38,7 +38,8 @@ def plan(tier, seed, build, scale):
     units = []
     n = 4 if tier == "quick" else 5
     for m in MODES:
-        units.append({"mode": "exhaustive", "cls": "h", "body": m, "maxlen": n, "cases": [0, 1]})
+        deep = tier == "thorough" and m in ("all", "raise", "spawn")
+        units.append({"mode": "exhaustive", "cls": "h", "body": m, "maxlen": n + (1 if deep else 0), "cases": [0, 1], "timeout": 2400, "case_timeout": 2300})
     units.append({"mode": "exhaustive", "cls": "debug", "body": "all", "maxlen": n, "cases": [0, 1]})
     nr = int((3000 if tier == "quick" else 60000) * scale)
     per = max(1, nr // 7)
